@@ -373,6 +373,13 @@ func Ite(c, a, b *Term) *Term {
 }
 
 func Add(a, b *Term) *Term {
+	// a + (j - a) = j
+	if b.Kind == KBuiltin && b.Op == "-" && len(b.Args) == 2 && b.Args[1] == a {
+		return b.Args[0]
+	}
+	if a.Kind == KBuiltin && a.Op == "-" && len(a.Args) == 2 && a.Args[1] == b {
+		return a.Args[0]
+	}
 	if x, ok := a.IntVal(); ok {
 		if y, ok2 := b.IntVal(); ok2 {
 			return IntLit(x + y)
@@ -478,6 +485,9 @@ func Ge(a, b *Term) *Term { return Le(b, a) }
 func Div(a, b *Term) *Term { return bi("div", SInt, a, b) }
 func Mod(a, b *Term) *Term { return bi("mod", SInt, a, b) }
 
+// allocSyms: references created by allocation; two distinct ones denote distinct objects.
+var allocSyms = map[*Term]bool{}
+
 func Select(arr, idx *Term) *Term {
 	_, el := arr.Sort.ArrParts()
 	// read-over-write simplification when syntactically decidable
@@ -487,6 +497,10 @@ func Select(arr, idx *Term) *Term {
 			return cur.Args[2]
 		}
 		if cur.Args[1].IsLit() && idx.IsLit() {
+			cur = cur.Args[0]
+			continue
+		}
+		if allocSyms[cur.Args[1]] && allocSyms[idx] {
 			cur = cur.Args[0]
 			continue
 		}
